@@ -470,6 +470,22 @@ PROPS['C25'] = dict(
                 'into the critical section takes the lock, which is a per-function postcondition over ghost lock state.',
 )
 
+PROPS['C01'] = dict(
+    units=['k_menc', 'k_dec'], level='model_checking', design_ref='13/C01',
+    technique='CBMC assertions on MessageBase::encode(char*), BaseField::encode(char*) and MessageBase::decode (clang AST of runtime/message.cpp / include/fix8/field.hpp) over parts of bounded size '
+              '(loops unwound); the leaf value codecs are the subject of C08 / C09',
+    text='The STRUCTURAL half of the round trip, BOUNDED to parts of at most 3 fields / 3 tokens without repeating groups. Encode: the unsuppressed fields of a part are rendered in position order, '
+         'back to back, each as <decimal tag> = <value bytes> SOH, suppressed ones are skipped, the unknown text follows, the returned length is the number of bytes written. Decode (strict, K-dec): '
+         'every token becomes exactly one field with its own tag, built from its own value text, at consecutive positions in arrival order. Hence decode(encode(part)) has the part\'s fields in the '
+         'part\'s order and re-encoding renders the same tokens, PROVIDED each field\'s value codec is a round trip: proved for integers (C08) and timestamps (C09), '
+         'NOT decided for floats (modp_dtoa / fast_atof), strings, characters, booleans and the other Field<T> specialisations. '
+         'NOT decided: repeating groups of any depth, Length/data pairs (C06 covers their decode branch), Message-level composition of header / body / trailer on the decode side beyond C04, '
+         'the bound itself, "all message types of the compiled schemas" (the proof is about the generic engine, not about each generated class).',
+    note='bounded stand-in for the structure only; never counted as proved; value round trips are delegated to C08 / C09 and are partly undecided',
+    trusted_base=COMMON_TRUST,
+    explanation='A message round trip factors into the order-and-framing behaviour of the generic encode / decode loops and the per-type value codecs; this check covers the former.',
+)
+
 # ---------------------------------------------------------------- native replayers
 import os
 import re
@@ -763,6 +779,7 @@ replayers['k_read'] = _replay_k_read
 replayers['k_fper'] = _replay_k_fper
 replayers['k_dec'] = _replay_k_dec
 replayers['k_fac'] = _replay_k_dec
+replayers['k_menc'] = _replay_k_enc
 replayers['k_ghash'] = _replay_k_ghash
 replayers['k_seq'] = _replay_k_seq
 replayers['k_hb'] = _replay_k_seq
